@@ -170,6 +170,16 @@ def inject(crate):
     added = []
     vdir = os.path.join(crate, "verif_kani")
     shutil.copytree(KANI_DIR, vdir)
+    # expand the `//@waker_stubs` marker (see kani/env.rs) into the stub attributes
+    stubs = "".join("#[kani::stub(%s, crate::verif_env::%s)]\n" % (a, b) for a, b in (
+        ("std::task::Waker::wake", "stub_waker_wake"), ("std::task::Waker::wake_by_ref", "stub_waker_wake_by_ref"),
+        ("std::task::Waker::drop", "stub_waker_drop")))  # NOTE: stubbing Waker::clone ICEs kani-compiler 0.68; its vtable entry returns RawWaker, a signature no drop glue shares
+    for fn in os.listdir(vdir):
+        if fn.endswith(".rs"):
+            fp = os.path.join(vdir, fn)
+            t = open(fp).read()
+            if "//@waker_stubs" in t:
+                open(fp, "w").write(re.sub(r"^[ \t]*//@waker_stubs[ \t]*\n", stubs, t, flags=re.M))
     for m in spec["modules"]:
         host = os.path.join(crate, m["host"])
         if not os.path.exists(host):
@@ -332,7 +342,7 @@ def run_kani(crate, harnesses, timeout_s, jobs, extra=None, logpath=None):
         cb = {c["harness_id"]: c for c in data.get("cbmc", [])}
         for r in data.get("verification_results", {}).get("results", []):
             verdict, failed, cov, note = classify_harness(r)
-            st = cb.get(r["harness_id"], {}).get("cbmc_stats", {})
+            st = (cb.get(r["harness_id"]) or {}).get("cbmc_stats") or {}
             results[r["harness_id"]] = {
                 "verdict": verdict,
                 "failed_checks": [{"description": c["description"], "function": c.get("function"),
@@ -345,7 +355,7 @@ def run_kani(crate, harnesses, timeout_s, jobs, extra=None, logpath=None):
                 "solver_s": round(st.get("runtime_solver_s", 0.0) + st.get("runtime_decision_procedure_s", 0.0), 3),
                 "symex_s": round(st.get("runtime_symex_s", 0.0), 3),
                 "vccs": st.get("vccs_generated"),
-                "backend": "cbmc-6.11+" + cb.get(r["harness_id"], {}).get("configuration", {}).get("solver", "cadical"),
+                "backend": "cbmc-6.11+" + (((cb.get(r["harness_id"]) or {}).get("configuration") or {}).get("solver") or "cadical"),
             }
     for h in harnesses:
         if h not in results:
